@@ -11,6 +11,7 @@ struct RunOpts {
         long max_svc = 200000;  // hard bound on service calls per run
         bool coverage = true;
         bool liveness = true;   // check the linear step bound in the final drain
+        std::string focus;       // property under check: findings of other properties that leave the model in sync are only noted
         bool keep_going = false; // execute the whole plan even after a violation (twin runs compare complete outputs)
         std::vector<bytes> override_init; // C08 twin: replacement initial contents, flattened (cmd,var) order; empty = plan's
 };
@@ -34,6 +35,7 @@ struct EngStats {
 
 struct RunResult {
         Violation viol;     // first violation (empty prop = none)
+        Violation soft_other; // first noted finding of another property (focus mode)
         MonStats mon;
         EngStats eng;
         uint64_t hash = 0;  // hash of the full event log
